@@ -28,6 +28,17 @@ class AMock:
     def __repr__(self):
         return f'<mock {self.name}>'
 
+    # protocol used by the abstract interpreter
+    def absint_hasattr(self, name):
+        return name in self.script or ('attr:' + name) in self.script
+
+    def absint_getattr(self, interp, name, node):
+        if ('attr:' + name) in self.script:
+            return self.script['attr:' + name]
+        if name in self.script or not self.script.get('strict'):
+            return ('mockmethod', self, name)
+        raise AbsRaise('AttributeError', node, implicit=True)
+
 
 def make_interp(ctx):
     ai = codec.make_interp(ctx)
@@ -52,8 +63,10 @@ def make_interp(ctx):
 
     def mock_hook(interp, base, name, args, kwargs, node):
         if isinstance(base, AMock):
-            base.calls.append((name, args))
-            log_event('mock', base.name, name, args)
+            if base.script.get('strict') and name not in base.script:
+                raise AbsRaise('AttributeError', node, implicit=True)
+            base.calls.append((name, list(args), dict(kwargs)))
+            log_event('mock', base.name, name, args, dict(kwargs))
             f = base.script.get(name)
             if f is not None:
                 return f(interp, base, args, kwargs, node)
